@@ -322,6 +322,23 @@ def prefixes : List String := ["names."]
       let ids := ((sortLangs tblL).map (·.1)).filter fun i => !(plat == 3 && i == 0x040A)
       s!"{ids.length};" ++ natsToString ids
     | none => "bad-case"
+  else if op == "names.slshare" then
+    -- a script list whose LangSys records may share one LangSys table: the language systems an
+    -- independent reader sees are independent values — adding feature 99 to the first one (in sorted
+    -- order) leaves the others as they are
+    match (getField fs "b").bind hexNats with
+    | some b =>
+      match Spec.scriptListOf b with
+      | some l =>
+        let strs := (l.map fun r =>
+          s!"{natsHex r.script}:{natsHex r.lang}:{r.required}:" ++ ".".intercalate (r.features.map toString)).mergeSort
+            fun a b => decide (a ≤ b)
+        let strs' := match strs with
+          | [] => []
+          | first :: rest => (if first.endsWith ":" then first ++ "99" else first ++ ".99") :: rest
+        ",".intercalate (strs'.mergeSort fun a b => decide (a ≤ b))
+      | none => "malformed"
+    | none => "bad-case"
   else "bad-op"
 
 def specStd : Array (List Nat) := Spec.standardTable.toArray
